@@ -549,7 +549,9 @@ def _key(case, run, v):
         if c not in BENIGN:
             causes.add("file:" + c)
     if run.get("srcdir"):
-        causes.add("srcdir:" + _class_path(case, run["srcdir"]["operand"], False))
+        c = _class_path(case, run["srcdir"]["operand"], False)
+        if c not in BENIGN:
+            causes.add("srcdir:" + c)
     causes = sorted(causes)
     symup = [c for c in causes if "symup" in c]
     if symup:
@@ -707,7 +709,8 @@ def _reductions(case, v=None):
                     if x["id"] == uid:
                         del x["sites"][si]
                 return c
-            yield "site:%d.%d" % (u["id"], si), f
+            yield "site:%d:%s:%d" % (u["id"], u["sites"][si]["operand"],
+                                     sum(1 for x in u["sites"][:si] if x["operand"] == u["sites"][si]["operand"])), f
     for i in range(len(run["search"])):
         def f(i=i):
             c = _copy(case)
@@ -716,7 +719,8 @@ def _reductions(case, v=None):
                 return None
             del r["search"][i]
             return c
-        yield "search:%d" % i, f
+        yield "search:%s:%d" % (run["search"][i]["operand"],
+                                sum(1 for x in run["search"][:i] if x["operand"] == run["search"][i]["operand"])), f
     if len(run["files"]) > 1:
         for i, fl in enumerate(run["files"]):
             if unit[fl["unit"]]["kind"] != "main":
@@ -727,7 +731,7 @@ def _reductions(case, v=None):
                         return None
                     del r["files"][i]
                     return c
-                yield "file:%d" % i, f
+                yield "file:" + fl["operand"], f
     if run["noangles"]:
         def f():
             c = _copy(case)
@@ -766,7 +770,7 @@ def _reductions(case, v=None):
                     return None
                 s["tokens"], s["operand"], s["spell"] = new, "@R/" + s["dir"], "abs"
                 return c
-            yield "respell-search:%d" % i, f
+            yield "respell-search:%s:%d" % (s["operand"], sum(1 for x in run["search"][:i] if x["operand"] == s["operand"])), f
     for i, fl in enumerate(run["files"]):
         target = "@R/" + unit[fl["unit"]]["path"]
         if fl["operand"] != target:
@@ -779,7 +783,7 @@ def _reductions(case, v=None):
                 r["argv"][r["argv"].index(old)] = target
                 r["files"][i]["operand"], r["files"][i]["spell"] = target, "f-abs"
                 return c
-            yield "respell-file:%d" % i, f
+            yield "respell-file:" + fl["operand"], f
     if run.get("srcdir") and run["srcdir"]["operand"] != "@R/" + run["srcdir"]["dir"]:
         def f():
             c = _copy(case)
@@ -802,7 +806,7 @@ def _reductions(case, v=None):
 def _minimise(ctx, case, ri, cat):
     """greedy reduction of a violating tree to a single run with as few names, sites, search directories,
     symlinks and hazardous spellings as still show a violation of the same category"""
-    budget = [30]
+    budget = [34]
 
     def find(c):
         if budget[0] <= 0:
@@ -820,6 +824,9 @@ def _minimise(ctx, case, ri, cat):
     cur = _copy(case)
     cur["runs"] = [cur["runs"][ri]]
     v = find(cur)
+    if v is None:
+        budget[0] += 1
+        v = find(cur)
     if v is None:
         return None, None
     progress = True
@@ -842,13 +849,12 @@ def _minimise(ctx, case, ri, cat):
                 continue
             tried.add(label)
             c = f()
-            if c is None:
+            if c is None or json.dumps(c, sort_keys=True) == json.dumps(cur, sort_keys=True):
                 continue
             v2 = find(c)
             if v2 is not None:
                 cur, v = c, v2
                 progress = True
-                tried = {t for t in tried if t.startswith("name:") or t.startswith("bulk:")}
                 break
         # operand normalisation of the sites involved, once nothing else can be dropped
         if not progress:
@@ -913,9 +919,16 @@ def run_tree(ctx, case):
             if v["cat"] in done:
                 continue
             done.add(v["cat"])
-            mc, mv = (None, None) if case.get("no_minimise") else _minimise(ctx, case, ri, v["cat"])
-            if mc is None:
+            if case.get("no_minimise"):
                 mc, mv = dict(case, runs=[case["runs"][ri]]), v
+            else:
+                mc, mv = _minimise(ctx, case, ri, v["cat"])
+                if mc is None:
+                    # the same run, repeated twice on a fresh copy of the tree, did not show the violation again:
+                    # not a reproducible witness (seen only when the machine is badly overloaded)
+                    res.inconclusive = "violation not reproduced on re-run"
+                    res.count("unreproduced_violations", 1)
+                    continue
             key = _key(mc, mc["runs"][0], mv)
             detail = dict(mv["detail"])
             detail["effect"] = mv["effect"]
